@@ -61,6 +61,16 @@ type Quirks struct {
 	// enumerable, configurable, writable, get, set, value (8.10.5 has value third),
 	// and with a get/set field present it throws before [[Get]] of "value".
 	DescriptorValueLast bool
+	// ReverseDeleteFirst: reverse, "lower is a hole, upper exists": the upper
+	// element is deleted before the lower one is written (15.4.4.8 step 6.i is Put, then Delete).
+	ReverseDeleteFirst bool
+	// JoinSeparatorFirst: join converts the separator before it reads "length".
+	JoinSeparatorFirst bool
+	// LastIndexOfConvertsOnEmpty: lastIndexOf converts fromIndex although the length is 0.
+	LastIndexOfConvertsOnEmpty bool
+	// CallableBeforeLength: every/some/forEach/map/filter/reduce/reduceRight test
+	// IsCallable(callbackfn) before they read "length".
+	CallableBeforeLength bool
 	// ResultHolesUndefined: concat, slice, splice (returned array) and map
 	// create an own property with value undefined where the source has a hole.
 	ResultHolesUndefined bool
